@@ -200,6 +200,18 @@ pub fn get_rates(deps: &Deps) -> (Decimal, Decimal) {
     }
 }
 
+/// Upper bound for the batch and unbonding periods, in seconds (about 317 years).
+/// It keeps `block time + period` representable as a `Timestamp` (u64 nanoseconds).
+pub const MAX_PERIOD_SECONDS: u64 = 10_000_000_000;
+
+/// Checks that a batch / unbonding period does not overflow the timestamp arithmetic.
+pub fn validate_period(period: u64) -> StdResult<u64> {
+    if period > MAX_PERIOD_SECONDS {
+        return Err(StdError::generic_err("period is too long"));
+    }
+    Ok(period)
+}
+
 /// Checks if the provided denom is valid or not.
 pub fn validate_denom(denom: impl Into<String>) -> StdResult<String> {
     let denom: String = denom.into();
